@@ -47,6 +47,24 @@ Definition cleanup (e : ebs) : option ebs :=
    array member are fields of the enclosing level; a struct/union member is classified on its own
    (including its own clean-up) and merged as a whole.  [base] = byte offset of the object inside
    the argument; [acc] = the classes accumulated so far at the enclosing level. *)
+(* the fields of one struct/union level, folded in declaration order (rec = sv_merge_into) *)
+Definition sv_level (rec : ty -> Z -> ebs -> option ebs) (base : Z) :=
+  fix level (ms : list (mkind * ty)) (rs : list mrec) (e : ebs) : option ebs :=
+    match ms, rs with
+    | (mk, mt) :: ms', r :: rs' =>
+        match mk with
+        | MBits w _ =>
+            (* bit-fields are INTEGER; zero-width bit-fields are ignored *)
+            level ms' rs' (if w =? 0 then e
+                           else merge_at (((base + m_off r) * 8 + m_bit r) / 64) INTEGER e)
+        | _ => match rec mt (base + m_off r) e with
+               | None => None
+               | Some e' => level ms' rs' e'
+               end
+        end
+    | _, _ => Some e
+    end.
+
 Fixpoint sv_merge_into (t : ty) (base : Z) (acc : ebs) : option ebs :=
   match t with
   | TBasic KFloat | TBasic KDouble => Some (merge_at (base / 8) SSE acc)
@@ -61,22 +79,7 @@ Fixpoint sv_merge_into (t : ty) (base : Z) (acc : ebs) : option ebs :=
                                  | Some e => sv_merge_into el (base + Z.of_nat i * sz) e
                                  end) (seq 0 (Z.to_nat n)) (Some acc)
   | TAgg u ms =>
-      let fix level (ms : list (mkind * ty)) (rs : list mrec) (e : ebs) : option ebs :=
-        match ms, rs with
-        | (mk, mt) :: ms', r :: rs' =>
-            match mk with
-            | MBits w _ =>
-                (* bit-fields are INTEGER; zero-width bit-fields are ignored *)
-                level ms' rs' (if w =? 0 then e
-                               else merge_at (((base + m_off r) * 8 + m_bit r) / 64) INTEGER e)
-            | _ => match sv_merge_into mt (base + m_off r) e with
-                   | None => None
-                   | Some e' => level ms' rs' e'
-                   end
-            end
-        | _, _ => Some e
-        end in
-      match level ms (sv_mems (sysv_layout t)) (NO_CLASS, NO_CLASS) with
+      match sv_level sv_merge_into base ms (sv_mems (sysv_layout t)) (NO_CLASS, NO_CLASS) with
       | None => None
       | Some e => match cleanup e with None => None | Some e => Some (merge2 e acc) end
       end
